@@ -26,9 +26,9 @@ RUN=$(grep -m1 -oE 'func (Test[A-Za-z0-9_]+)' "$DEMO" | awk '{print $2}')
 ALLTESTS=$(grep -oE 'func (Test[A-Za-z0-9_]+)' "$DEMO" | awk '{print $2}' | paste -sd'|')
 cp "$DEMO" "$WT/$DIR/zz_demo_confirm_test.go"
 # without the patch: demo must pass
-go test -vet=off -count=1 -timeout 10m -run "^($ALLTESTS)\$" "./$DIR/" > "$M/confirm_demo_without.log" 2>&1; W=$?
+go test ${DEMO_RACE:+-race} -vet=off -count=1 -timeout 20m -run "^($ALLTESTS)\$" "./$DIR/" > "$M/confirm_demo_without.log" 2>&1; W=$?
 if ! git apply "$M/patch.diff" 2> "$M/confirm_apply.log"; then res applies=no; git checkout -q -- .; git clean -fdq; exit 1; fi
-go test -vet=off -count=1 -timeout 10m -run "^($ALLTESTS)\$" "./$DIR/" > "$M/confirm_demo_with.log" 2>&1; D=$?
+go test ${DEMO_RACE:+-race} -vet=off -count=1 -timeout 20m -run "^($ALLTESTS)\$" "./$DIR/" > "$M/confirm_demo_with.log" 2>&1; D=$?
 rm -f "$WT/$DIR/zz_demo_confirm_test.go"
 go build ./... > "$M/confirm_build.log" 2>&1; B=$?
 go test -vet=off -count=1 -timeout 25m ./... > "$M/confirm_suite.log" 2>&1; S=$?
